@@ -79,6 +79,10 @@ func TemplateFromCert(ctx context.Context, cert *x509.Certificate, pubKey any) (
 	template.Subject.CommonName = subjectCn
 	template.Subject.SerialNumber = subjectSerial.String()
 	template.NotBefore = timestamp
-	template.NotAfter = timestamp.Add(time.Duration(styp.SignValidDays) * 24 * time.Hour)
+	if cert.IsCA {
+		template.NotAfter = timestamp.Add(time.Duration(styp.RootValidDays) * 24 * time.Hour)
+	} else {
+		template.NotAfter = timestamp.Add(time.Duration(styp.SignValidDays) * 24 * time.Hour)
+	}
 	return &template, nil
 }
